@@ -21,6 +21,8 @@ func init() {
 		ruleK6(c, "C15.K6")
 		ruleK7(c, "C15.K7")
 		ruleNlinkWriters(c, "C15.K8")
+		// fully usable: every free block can be had (no refusal while the allocator has numbers)
+		ruleAllocRefusal(c, "C15.K9")
 	}
 }
 
